@@ -5,6 +5,8 @@ import BSModel.Props.C03
 import BSModel.Proofs.WriterBuild
 import BSModel.Proofs.WriterViews
 import BSModel.Gen.Cp1252
+import BSModel.Proofs.TokenizerWholePos
+import BSModel.Proofs.TokenizerWholeBuild
 /-! # C04 — html.parser documents become the tree the markup describes
 
 The adapter `BeautifulSoupHTMLParser` as a function from the standard-library parser's callback stream to builder
@@ -423,5 +425,88 @@ theorem numericOK_live (n : Nat) (hn : n ≤ 0x10FFFF) :
     simp [numericOK, hn, h1]; omega
 
 end Whole
+
+/-! ## the written TEXT: parsing a well-formed written document yields the tree it describes
+
+`emit_build` starts from the html.parser CALLBACKS of a written document. This section starts from its TEXT
+(`Model/WriterText.lean: writeText`) and goes through the model of CPython's tokenizer (`Model/Tokenizer.lean`, tied
+to the real `html.parser` by the `tokenizer-model` streams): the callbacks the tokenizer makes on the text are `emit`'s,
+up to the cutting of character data into chunks, with every start tag at the line/column of its `<`. -/
+section Written
+open BS.Writer BS.WriterText
+
+/-- **the tokenizer on a written document.** For a `Writable` document under any choices of the writer, and any
+    `str.lower`/`html.unescape` that leave the writer's names alone and invert its attribute escaping (`ParamsOK`):
+    `feed(writeText …); close()` does not raise, consumes the whole text, and makes exactly the callbacks `emit` lists —
+    same callbacks, same order, same names, attributes, references, special strings — up to the cutting of character
+    data into `data` chunks (`mergeData`), each start tag reported at the position `derivedPos` reads off the text
+    (the 1-based line and 0-based column of the offset of its `<`). -/
+theorem callbacks_of_written_document (P : BS.Tokenizer.Params) (hP : ParamsOK P) (iv : Name → Bool) (c : Choices)
+    (ds : List WDoc) (hw : Writable iv c ds) :
+    mergeData (BS.Tokenizer.callbacks (BS.Tokenizer.run P (writeText iv c ds))) =
+        mergeData (emitDoc iv (withDerivedPos iv c ds) ds) ∧
+      (BS.Tokenizer.run P (writeText iv c ds)).flag = .ok ∧ (BS.Tokenizer.run P (writeText iv c ds)).st.s = [] := by
+  have hg := good_wtoksL P hP iv c ds [] 0 hw
+  obtain ⟨h1, h2, h3⟩ := run_toks P (wtoksL iv c [] 0 ds) hg
+  refine ⟨?_, h2, h3⟩
+  have hm := callbacks_runToks (wtoksL iv c [] 0 ds) [] []
+  have he := tokEvs_wtoksL iv c (derivedPos iv c ds) ds [] 0 [] (derivedPos_agrees iv c ds)
+  simp only [BS.Tokenizer.callbacks, writeText, h1]
+  rw [hm]
+  simp only [List.append_nil, flushLit, List.isEmpty_nil, if_true, List.nil_append, he]
+  rfl
+
+/-- **parse_of_written_document — parsing a well-formed written document yields the tree it describes.** The text
+    `writeText` of a document (`Writable`, `Representable`, references `WellSpelt`), tokenized as `feed(text); close()`
+    does, the callbacks handed to `BeautifulSoupHTMLParser` and its events to the construction machine: the result is
+    `normalise` of the document, and `Tag.__init__` receives, in document order, the attributes of the start tags and
+    the line/column of their `<` in the text. `html.unescape` and `str.lower` are the only parameters. -/
+theorem parse_of_written_document (bcfg : Cfg) (acfg : ACfg) (hc : CfgOK bcfg) (P : BS.Tokenizer.Params) (hP : ParamsOK P)
+    (c : Choices) (ds : List WDoc) (hw : Writable acfg.isVoid c ds) (hr : Representable bcfg acfg ds)
+    (hs : WellSpelt acfg c.char ds) :
+    adapterBuild bcfg acfg (BS.Tokenizer.callbacks (BS.Tokenizer.run P (writeText acfg.isVoid c ds))) =
+      (normalise bcfg ds, startInfos acfg (withDerivedPos acfg.isVoid c ds) ds) := by
+  rw [adapterBuild_congr bcfg acfg hc _ _ (callbacks_of_written_document P hP acfg.isVoid c ds hw).1]
+  exact emit_build bcfg acfg hc ds (withDerivedPos acfg.isVoid c ds) hr hs
+
+/-- **the derived positions are the positions of the `<`.** Whenever `derivedPos` finds the start tag of the element at
+    path `p` at offset `o` of the written text, the text has a `<` there and the position is the 1-based line / 0-based
+    column of `o`. -/
+theorem derived_positions_are_lt_offsets (iv : Name → Bool) (c : Choices) (ds : List WDoc) (p : Path) (o : Nat)
+    (h : offsetOf p 0 (wtoksL iv c [] 0 ds) = some o) :
+    (writeText iv c ds)[o]? = some 60 ∧ (withDerivedPos iv c ds).pos p = BS.SourcePos.lineCol (writeText iv c ds) o :=
+  derived_offset_lt iv c ds p o h
+
+/-! non-vacuity: the sample document of `emit_build`, written out and tokenized -/
+
+/-- concrete parameters satisfying `ParamsOK`: ASCII lower-casing, and the inverse of the writer's attribute escaping -/
+def xP : BS.Tokenizer.Params := { unescape := unescSimple, lower := BS.Tokenizer.asciiLower }
+theorem xP_ok : ParamsOK xP := paramsOK_simple
+
+example : Writable xA.isVoid xC xDoc := by decide
+/-- under `xC'` the `&` of `a&b` is spelt literally: not writable -/
+example : ¬ Writable xA.isVoid xC' xDoc := by decide
+/-- the text of the sample under the first choices -/
+example : writeText xA.isVoid xC xDoc =
+    BS.ofS "<!doctype html><p id=\"x\" k>a&amp;b<br>&#0099;<br/>&#X64;<br></br><!--note--></p><pre> \n </pre> \n " := by decide
+/-- positions read off the text: `<p` at offset 15, the first `<br` at 34, `<pre>` at 80 (still line 1) -/
+example : (withDerivedPos xA.isVoid xC xDoc).pos [1] = (1, 15) ∧ (withDerivedPos xA.isVoid xC xDoc).pos [1, 1] = (1, 34) ∧
+    (withDerivedPos xA.isVoid xC xDoc).pos [2] = (1, 80) := by decide
+example : offsetOf [1, 1] 0 (wtoksL xA.isVoid xC [] 0 xDoc) = some 34 := by decide
+/-- the model tokenizer on that text: 17 callbacks, no error, nothing left -/
+example : (BS.Tokenizer.callbacks (BS.Tokenizer.run xP (writeText xA.isVoid xC xDoc))).length = 17 ∧
+    (BS.Tokenizer.run xP (writeText xA.isVoid xC xDoc)).flag = .ok := by decide
+example : mergeData (BS.Tokenizer.callbacks (BS.Tokenizer.run xP (writeText xA.isVoid xC xDoc))) =
+    mergeData (emitDoc xA.isVoid (withDerivedPos xA.isVoid xC xDoc) xDoc) :=
+  (callbacks_of_written_document xP xP_ok xA.isVoid xC xDoc (by decide)).1
+example : adapterBuild xB xA (BS.Tokenizer.callbacks (BS.Tokenizer.run xP (writeText xA.isVoid xC xDoc))) =
+    (normalise xB xDoc, startInfos xA (withDerivedPos xA.isVoid xC xDoc) xDoc) :=
+  parse_of_written_document xB xA (by decide) xP xP_ok xC xDoc (by decide) (by decide) (by decide)
+/-- the restrictions are genuine: a literal `<` in text, an element named `script`, a comment `a-- >b` are not writable -/
+example : ¬ Writable xA.isVoid { xC with char := fun _ _ => .lit false } [.text [97, 60, 98]] := by decide
+example : ¬ Writable xA.isVoid xC [.elem [115, 99, 114, 105, 112, 116] [] [.text [120]]] := by decide
+example : ¬ Writable xA.isVoid xC [.special .comment [97, 45, 45, 32, 62, 98]] := by decide
+
+end Written
 
 end BS.Props.C04
